@@ -15,6 +15,9 @@ const (
 	SinkShort = 2 // write number K returns (n < len, ErrSink); later ones fail
 	SinkDead  = 3 // every write fails
 	SinkPanic = 4 // write number K panics (a bounded buffer, a test logger calling FailNow)
+	// SinkShortOnce: write number K takes half of its bytes and reports io.ErrShortWrite (a
+	// frame that is full); every other write, later ones included, succeeds
+	SinkShortOnce = 5
 )
 
 // ErrSinkPanic is the value a panicking sink panics with.
@@ -45,6 +48,13 @@ func (s *SimSink) Write(p []byte) (int, error) {
 	idx := s.Calls
 	s.Calls++
 	switch s.Plan {
+	case SinkShortOnce:
+		if idx == s.K {
+			n := len(p) / 2
+			s.accept(p[:n])
+			s.fail("sink_short_once")
+			return n, io.ErrShortWrite
+		}
 	case SinkPanic:
 		if idx == s.K {
 			s.Panicked = true
@@ -114,6 +124,9 @@ type RCSink struct {
 func (s *RCSink) Reserve(n int) {
 	if s.Env != nil {
 		s.Env.Yield("sink.reserve")
+	}
+	if n < 0 {
+		panic("RCSink.Reserve: negative count") // as bytes.Buffer.Grow does
 	}
 	s.Reserves = append(s.Reserves, n)
 }
